@@ -138,11 +138,13 @@ func NumMember(class string, pick int, rng *rand.Rand) Num {
 
 // ---------------------------------------------------------------------------------------------
 // Parse direction (C03): a string literal class is "class~spelling"; spellings:
-//   raw    every character written as itself (only legal characters: no quote, backslash, C0)
-//   short  the two-character escapes \" \\ \/ \b \f \n \r \t where they exist, raw otherwise
-//   ulow   every character as \uXXXX with lower-case hex (surrogate pairs above U+FFFF)
-//   uup    the same with upper-case hex
-//   mixed  alternating raw/short/ulow/uup per character (seeded)
+//
+//	raw    every character written as itself (only legal characters: no quote, backslash, C0)
+//	short  the two-character escapes \" \\ \/ \b \f \n \r \t where they exist, raw otherwise
+//	ulow   every character as \uXXXX with lower-case hex (surrogate pairs above U+FFFF)
+//	uup    the same with upper-case hex
+//	mixed  alternating raw/short/ulow/uup per character (seeded)
+//
 // ---------------------------------------------------------------------------------------------
 var shortEsc = map[rune]string{'"': `\"`, '\\': `\\`, '/': `\/`, '\b': `\b`, '\f': `\f`, '\n': `\n`, '\r': `\r`, '\t': `\t`}
 
@@ -207,16 +209,16 @@ func splitClass(c string) (string, string) {
 
 // NumLits: number LITERAL classes (parse direction), each literal is valid RFC 8259.
 var NumLits = map[string][]string{
-	"int":      {"0", "7", "42", "-1", "-12", "1000000", "123456789012"},
-	"negzero":  {"-0"},
-	"intmax":   {"9223372036854775807", "9223372036854775806", "9007199254740993"},
-	"intmin":   {"-9223372036854775808", "-9223372036854775807"},
-	"intover":  {"9223372036854775808", "-9223372036854775809", "18446744073709551615", "18446744073709551616", "123456789012345678901234567890", "-99999999999999999999"},
-	"frac":     {"1.5", "-0.25", "0.0", "-0.0", "3.14", "10.0", "0.1", "123.456", "1.0", "100.000"},
-	"exp":      {"1e2", "1E2", "1e+2", "1E+2", "1e-2", "1E-2", "1.5e3", "-1.0E-2", "0e0", "0E+0", "-0e-0", "2e00", "1e010", "12E3", "1.25e+10"},
-	"big":      {"1e308", "1.7976931348623157e308", "-1.7976931348623157E+308", "1e300", "123456789e290"},
-	"tiny":     {"1e-300", "5e-324", "2.2250738585072014e-308", "4.9406564584124654e-324", "1e-320"},
-	"round":    {"0.30000000000000004", "0.1000000000000000055511151231257827", "9007199254740993.0", "1.00000000000000011102230246251565404236316680908203125", "123456789012345678.0"},
+	"int":     {"0", "7", "42", "-1", "-12", "1000000", "123456789012"},
+	"negzero": {"-0"},
+	"intmax":  {"9223372036854775807", "9223372036854775806", "9007199254740993"},
+	"intmin":  {"-9223372036854775808", "-9223372036854775807"},
+	"intover": {"9223372036854775808", "-9223372036854775809", "18446744073709551615", "18446744073709551616", "123456789012345678901234567890", "-99999999999999999999"},
+	"frac":    {"1.5", "-0.25", "0.0", "-0.0", "3.14", "10.0", "0.1", "123.456", "1.0", "100.000"},
+	"exp":     {"1e2", "1E2", "1e+2", "1E+2", "1e-2", "1E-2", "1.5e3", "-1.0E-2", "0e0", "0E+0", "-0e-0", "2e00", "1e010", "12E3", "1.25e+10"},
+	"big":     {"1e308", "1.7976931348623157e308", "-1.7976931348623157E+308", "1e300", "123456789e290"},
+	"tiny":    {"1e-300", "5e-324", "2.2250738585072014e-308", "4.9406564584124654e-324", "1e-320"},
+	"round":   {"0.30000000000000004", "0.1000000000000000055511151231257827", "9007199254740993.0", "1.00000000000000011102230246251565404236316680908203125", "123456789012345678.0"},
 }
 
 var NumLitOrder = []string{"int", "negzero", "intmax", "intmin", "intover", "frac", "exp", "big", "tiny", "round"}
